@@ -515,13 +515,66 @@ def delay_streams(run: AsyncRun, n=100, gs0=None):
 # compiled runtime
 
 
+MAPS_LIMIT = 12000  # vm.max_map_count is 65530 here; one eager call of a large partition can add > 10000 mappings
+
+
+def relieve_maps(limit=MAPS_LIMIT):
+    """Un-jitted execution of a compiled graph makes XLA compile (and mmap) one small executable per lax.cond; a large
+    graph exhausts vm.max_map_count ("LLVM ERROR: Unable to allocate section memory", the process aborts). This is a
+    limit of the sandbox, not behaviour of rex: drop jax's executable caches when the process holds many mappings.
+    Never done while tracing."""
+    try:
+        from jax._src import core
+
+        if not core.trace_state_clean():
+            return False
+        with open("/proc/self/maps") as f:
+            n = sum(1 for _ in f)
+        if n < limit:
+            return False
+        import gc
+
+        import jax
+
+        jax.effects_barrier()
+        jax.clear_caches()
+        gc.collect()
+        return True
+    except Exception:  # noqa
+        return False
+
+
+def _guard_eager(g):
+    """wrap the entry points of a compiled graph with relieve_maps (instance attributes; the class is untouched)"""
+    import functools
+
+    for name in ("run", "step", "reset", "rollout", "init"):
+        f = getattr(g, name, None)
+        if f is None:
+            continue
+
+        def mk(f):
+            @functools.wraps(f)
+            def w(*a, **k):
+                relieve_maps()
+                return f(*a, **k)
+
+            return w
+
+        try:
+            object.__setattr__(g, name, mk(f))
+        except Exception:  # noqa
+            pass
+    return g
+
+
 def compile_graph(nodes, sup, graphs_raw, mode="MCS", prune=True, **kw):
     import rex.constants as const
     from rex.graph import Graph
 
     sg = dict(MCS=const.Supergraph.MCS, GENERATIONAL=const.Supergraph.GENERATIONAL, TOPOLOGICAL=const.Supergraph.TOPOLOGICAL)[mode]
     try:
-        return Graph(nodes=nodes, supervisor=sup, graphs_raw=graphs_raw, supergraph=sg, prune=prune, progress_bar=False, **kw)
+        return _guard_eager(Graph(nodes=nodes, supervisor=sup, graphs_raw=graphs_raw, supergraph=sg, prune=prune, progress_bar=False, **kw))
     except Exception as ex:
         import traceback
 
